@@ -76,6 +76,9 @@ type FS struct {
 	// EOFWithData: readers report the final bytes together with io.EOF (allowed by io.Reader;
 	// archive/tar and many network readers do it).
 	EOFWithData bool
+	// Resize, if set, gives the bytes a reader of p delivers: a file that shrank or grew between listing (the stat
+	// still announces the old size) and reading.
+	Resize func(p string, data []byte) []byte
 }
 
 type eofReader struct {
@@ -179,9 +182,13 @@ func (f *FS) Open(p string) (io.ReadCloser, error) {
 	if n.Kind != fsmodel.File {
 		return nil, &os.PathError{Op: "open", Path: p, Err: os.ErrInvalid}
 	}
-	var rc io.ReadCloser = io.NopCloser(bytes.NewReader(n.Data))
+	data := n.Data
+	if f.Resize != nil {
+		data = f.Resize(p, data)
+	}
+	var rc io.ReadCloser = io.NopCloser(bytes.NewReader(data))
 	if f.EOFWithData {
-		rc = io.NopCloser(&eofReader{data: n.Data})
+		rc = io.NopCloser(&eofReader{data: data})
 	}
 	if f.OpenHook != nil {
 		return f.OpenHook(p, rc)
